@@ -60,8 +60,10 @@ ASSUMPTIONS = [
     "demand-driven on its own input), not the possibly smaller semantic minimum of the composed function",
     "the pulls made while *finding the end* of the results are bounded only where the statement gives a "
     "bound: behind a Slice with non-negative arguments (itertools.islice: at most max(start, stop) "
-    "values); for elements whose results end early for other reasons (negative start with positive "
-    "stop, stop <= start) nothing is demanded and non-termination there is only counted",
+    "values), behind a Slice with stop <= start < 0 (always empty: 0 values) and behind a Slice with a "
+    "negative start and a non-negative stop (empty as soon as the flow is known to have stop - start "
+    "values; one further value of look-ahead is granted); for other elements nothing is demanded of "
+    "the end and non-termination there is only counted",
     "on the unbounded flow only the k results that are determined by its first `horizon` values are "
     "scheduled; Slice with a negative start never yields there and is exercised with k = 0 only",
     "liveness counts original source values only (deep copies made by Split are not input values) and "
